@@ -37,7 +37,39 @@ STYLE_LINES = {("#888888", "-"): "acceptedCurve", ("#ffb6c1", "-"): "rejectedCur
                ("#000000", "-"): "meanCurve", ("#000000", "--"): "stdCurve"}
 STYLE_MARKERS = {("D", "#90ee90", "#000000"): "peakMeanCurve", ("s", "#90ee90", "#000000"): "peakMeanByAzimuth",
                  ("o", "#ffffff", "#000000"): "peakIndividualValid", ("o", "#ffb6c1", "#ffffff"): "peakIndividualInvalid"}
-BAND_COLOR = "#ff8080"
+BAND_COLORS = {"#ff8080"}
+STYLE_SOURCE = {"individual_valid_hvsr_curve": "acceptedCurve", "individual_invalid_hvsr_curve": "rejectedCurve",
+                "mean_hvsr_curve": "meanCurve", "nth_std_mean_hvsr_curve": "stdCurve",
+                "peak_mean_hvsr_curve": "peakMeanCurve", "peak_mean_hvsr_curve_azimuthal": "peakMeanCurve",
+                "peak_mean_hvsr_curve_azimuthal_2d": "peakMeanByAzimuth",
+                "peak_individual_valid_hvsr_curve": "peakIndividualValid",
+                "peak_individual_invalid_hvsr_curve": "peakIndividualInvalid"}
+LS_NORM = {"solid": "-", "dashed": "--", "dashdot": "-.", "dotted": ":", None: "-"}
+
+
+def load_style_tables(pp):
+    """Identify the artist classes by the style dictionaries of the module under test (a restyling is not an alarm);
+    the table above is the fallback when the dictionaries are not found.  Returns the list of class pairs that the
+    dictionaries make indistinguishable (that IS an alarm: accepted and rejected windows must look different)."""
+    global STYLE_LINES, STYLE_MARKERS, BAND_COLORS
+    try:
+        dk = pp.DEFAULT_KWARGS
+        lines, markers, clash = {}, {}, []
+        for name, cls in STYLE_SOURCE.items():
+            d = dk[name]
+            if d.get("marker") in (None, "", "None"):
+                ls = d.get("linestyle", "-")
+                key, tab = (_hex(d["color"]), LS_NORM.get(ls, ls)), lines
+            else:
+                key, tab = (d["marker"], _hex(d["markerfacecolor"]), _hex(d["markeredgecolor"])), markers
+            if key in tab and tab[key] != cls:
+                clash.append([tab[key], cls])
+            tab[key] = cls
+        bands = {_hex(dk[k]["color"]) for k in ("nth_std_frequency_range_normal", "nth_std_frequency_range_lognormal")}
+        STYLE_LINES, STYLE_MARKERS, BAND_COLORS = lines, markers, bands
+        return clash
+    except Exception:
+        return []
 EXACT_STYLES = {"acceptedCurve", "rejectedCurve", "peakIndividualValid", "peakIndividualInvalid"}
 INDEX_LABELS = ["Resonant Site Frequency, fn (Hz)", "Resonant Site Period, Tn (s)", "Resonance Amplitude, An"]
 
@@ -278,7 +310,7 @@ def canon_axes(ax):
         lines.append((st, optlist(ln.get_xdata(orig=True)), optlist(ln.get_ydata(orig=True))))
     bands = []
     for p in ax.patches:
-        if isinstance(p, mp.Polygon) and _hex(p.get_facecolor()) == BAND_COLOR:
+        if isinstance(p, mp.Polygon) and _hex(p.get_facecolor()) in BAND_COLORS:
             xy = np.asarray(p.get_xy())
             bands.append(("fnBand", optlist(xy[:4, 0]), optlist(xy[:4, 1])))
         elif isinstance(p, mp.Polygon):
@@ -974,8 +1006,13 @@ def run(ctx):
                 "plot_pre_and_post_rejection also with a failure injected into its first resp. second panel; "
                 "non-trivial = object has >=2 accepted and >=1 rejected window and >=2 distinct valid peak frequencies; distinct by (object, function, options) hash")
     ctx.trusted += ["matplotlib stores the data and style it is given (Line2D/Polygon/Path3DCollection getters), pandas stores the array it is given",
-                    "the artist style classes are identified by colour + line style + marker + marker face/edge colour as listed in harness/c20.py"]
+                    "artist style classes are identified by colour + line style + marker + marker face/edge colour of the entries of "
+                    "postprocessing.DEFAULT_KWARGS (checked to be pairwise distinguishable; fallback table in harness/c20.py)"]
     rng = np.random.default_rng(ctx.seed)
+    clash = load_style_tables(pp)
+    if clash:
+        ctx.violation(C_DRAW, dict(what="style dictionaries make artist classes indistinguishable", classes=clash), found_input=False,
+                      seam="hvsrpy.postprocessing.DEFAULT_KWARGS")
     sh = Shared()
     combos = all_option_combos()
     rng.shuffle(combos)
@@ -994,6 +1031,16 @@ def run(ctx):
     pending = []     # (case, res, first model line, number of model lines, scale, nontrivial)
     req = []
     try:
+        # minimised past disagreements / witnesses of repaired defects first
+        for cc in load_corpus("C20"):
+            c = cc["case"]
+            obj = rebuild(c["obj"]) if c.get("obj") else None
+            recs = build_records(c["recs"]) if c.get("recs") else None
+            res, lines = exec_case(pp, sh, c, obj, recs)
+            pending.append((c, res, len(req), len(lines), float(np.max(obj.frequency)) if obj is not None else 1.0,
+                            nontrivial_obj(obj, c["obj"]["kind"]) if obj is not None else False, sha8(c.get("obj") or c.get("recs"))))
+            req += lines
+            ctx.count("corpus_cases")
         oid = 0
         for kind, count in (("T", n_t), ("A", n_a), ("D", n_d)):
             for j in range(count):
@@ -1077,6 +1124,7 @@ def replay(case):
     import hvsrpy
     import hvsrpy.postprocessing as pp
     ensure_driver()
+    load_style_tables(pp)
     sh = Shared()
     try:
         obj = rebuild(case["obj"]) if case.get("obj") else None
